@@ -37,6 +37,7 @@ import weakref
 
 from .attr import _ClsLevelDispatch
 from .attr import _EmptyListener
+from .attr import _establish_empty_listener
 from .attr import _InstanceLevelDispatch
 from .attr import _JoinedListener
 from .registry import _ET
@@ -165,8 +166,7 @@ class _Dispatch(_DispatchCommon[_ET]):
         except KeyError:
             raise AttributeError(name)
         else:
-            setattr(self, ls.name, ls)
-            return ls
+            return _establish_empty_listener(self, ls)
 
     @property
     def _event_descriptors(self) -> Iterator[_ClsLevelDispatch[_ET]]:
@@ -451,13 +451,14 @@ class dispatcher(Generic[_ET]):
 
         disp = self.dispatch._for_instance(obj)
         try:
-            obj.__dict__["dispatch"] = disp
+            # threads making the first access concurrently all get
+            # the same object
+            return obj.__dict__.setdefault("dispatch", disp)
         except AttributeError as ae:
             raise TypeError(
                 "target %r doesn't have __dict__, should it be "
                 "defining _slots_dispatch?" % (obj,)
             ) from ae
-        return disp
 
 
 class slots_dispatcher(dispatcher[_ET]):
